@@ -115,7 +115,7 @@ void coap_show_pdu(coap_log_t level, const coap_pdu_t *pdu) { (void)level; (void
 const char *coap_session_str(const coap_session_t *session) { (void)session; return "session"; }
 const char *coap_endpoint_str(const coap_endpoint_t *ep) { (void)ep; return "endpoint"; }
 size_t coap_print_addr(const coap_address_t *a, unsigned char *b, size_t l) { (void)a; (void)b; (void)l; return 0; }
-const char *coap_print_ip_addr(const coap_address_t *a, char *b, size_t l) { (void)a; (void)b; (void)l; return ""; }
+const char *coap_print_ip_addr(const coap_address_t *a, char *b, size_t l) { (void)a; if (l) b[0] = 0; return b; }   /* prints the empty string */
 void coap_update_io_timer(coap_context_t *context, coap_tick_t delay) { (void)context; (void)delay; }
 
 /* ---- objects ------------------------------------------------------------------------------------------------- */
